@@ -11,7 +11,9 @@
    ids, disconnections, held events, snapshots and restarts).
    The payer's first-hop channels may persist asynchronously (PaySendMCw*: what every first hop answers at send time --
    sent / monitor write in flight / refused / parked in the holding cell --, completions in any order, the holding-cell
-   release with its fail-back branch; families `wipref`, `hcfail`, random schedules with asynchronous persistence).
+   release with its fail-back branch; families `wipref`, `hcfail` -- also with a second payment parked in the same holding
+   cell, so that one pass releases one HTLC and fails the other back --, random schedules with asynchronous persistence
+   at the payer and at a forwarding node / the recipient).
 3. TLC validates every recorded run against PaySend.tla (PaySendTrace.tla).
 4. The BOLT-12 payment flow (OfferFlow.tla, engine offernet) is a part of its own (offer_common.run_part).
 """
@@ -261,7 +263,10 @@ def run(tier, seed):
               "send_multipart": 50, "runs_with_repeated_PaymentSent": 3, "runs_with_repeated_PaymentFailed": 3, "restart_stale": 100, "pathfailed_hop3": 20, "quiet": 100,
               "chain_commitment": 100, "chain_htlc_claimed": 20, "chain_htlc_timeout": 20, "quiet_chain_settled": 100,
               "persist": 300, "complete": 300, "config": 100, "pathfailed_never_offered": 30,
-              "pathfailed_initial_while_write_in_flight": 30},
+              "pathfailed_initial_while_write_in_flight": 30,
+              # a holding cell freed by a completion from which one HTLC left while another one was failed back; writes in
+              # flight at a node that is not the payer
+              "pathfailed_never_offered_beside_a_released_add": 3, "persist_not_payer": 8},
         selftests=SELFTESTS, pick=pick, probes=PROBES,
         assumptions=pc.COMMON_ASSUMPTIONS + [
             "the channel named by PaymentPathFailed is accepted if it is the hop on which the failing node received the "
